@@ -538,7 +538,7 @@ func IsolateEnv(dir string) {
 	os.MkdirAll(dir+"/tmp", 0o755)
 }
 
-var tmpNameRx = regexp.MustCompile(`(profile|pprof)[0-9]{3}`)
+var tmpNameRx = regexp.MustCompile(`(profile|pprof)[0-9]{3,}`)
 
 // NormalizeTmpNames replaces generated temporary file counters.
 func NormalizeTmpNames(s string) string { return tmpNameRx.ReplaceAllString(s, "${1}NNN") }
